@@ -8,6 +8,7 @@ package encr
 
 import (
 	"bytes"
+	"hash"
 	"unsafe"
 )
 
@@ -78,3 +79,18 @@ func verifRandDrawn(s []byte) bool { return true }
 // verifRandFailed: some read of the system random source failed during the execution
 // under verification (never at run time, where the real source is used).
 func verifRandFailed() bool { return false }
+
+// verifPrfPlusSpec: prf+ (RFC 7296 2.13) of the keyed object prf over seed, first n
+// octets.  For the verifier an uninterpreted function of (algorithm, key, seed, n).
+func verifPrfPlusSpec(prf hash.Hash, seed []byte, n int) []byte {
+	var out, t []byte
+	for i := 1; len(out) < n; i++ {
+		prf.Reset()
+		prf.Write(t)
+		prf.Write(seed)
+		prf.Write([]byte{byte(i)})
+		t = prf.Sum(nil)
+		out = append(out, t...)
+	}
+	return out[:n]
+}
